@@ -666,6 +666,8 @@ RULES = [
 
 from . import shared
 RULES = RULES + shared.bundle('C20', [], ['convert'])
+from .. import refs as _refs
+RULES = RULES + [_refs.ref_rule('C20')]
 
 
 def run(tier="quick", replay=None):
